@@ -2,7 +2,9 @@ package main
 
 import (
 	"bytes"
+	"io"
 	"net"
+	"sync"
 	"time"
 
 	stun "github.com/pion/stun/v3"
@@ -19,7 +21,7 @@ import (
 
 const (
 	noisePeriod = 64
-	noiseKinds  = 12
+	noiseKinds  = 13
 )
 
 var noiseFF = bytes.Repeat([]byte{0xFF}, 763)
@@ -137,6 +139,21 @@ func noise(k int) {
 		_ = m.Build(stun.BindingError, tid, stun.CodeStaleNonce, stun.RawAttribute{Type: 0x7FFF, Value: noiseFF[:7]})
 		_ = stun.ErrorCode(12345).AddTo(m)
 		_ = m.String()
+	case 12: // a client: a 96-byte request that is re-transmitted twice and never answered, then Close
+		conn := &noiseConn{closed: make(chan struct{})}
+		clk := &noiseClock{t: time.Unix(1000, 0)}
+		col := &noiseCollector{}
+		cl, err := stun.NewClient(conn, stun.WithClock(clk), stun.WithCollector(col), stun.WithRTO(time.Second))
+		if err != nil {
+			return
+		}
+		req := stun.MustBuild(stun.BindingRequest, tid, stun.Username(noiseFF[:72]))
+		_ = cl.Start(req, func(stun.Event) {})
+		for i := 0; i < 2 && col.f != nil; i++ {
+			clk.t = clk.t.Add(time.Minute)
+			col.f(clk.t)
+		}
+		_ = cl.Close()
 	case 11: // an undecodable and a truncated message into a used Message
 		_ = m.Build(stun.BindingRequest, tid, stun.Software(noiseFF[:100]))
 		bad := append([]byte(nil), m.Raw...)
@@ -146,3 +163,21 @@ func noise(k int) {
 		_, _ = m.Write(nil)
 	}
 }
+
+type noiseConn struct {
+	closed chan struct{}
+	once   sync.Once
+}
+
+func (c *noiseConn) Read(p []byte) (int, error)  { <-c.closed; return 0, io.EOF }
+func (c *noiseConn) Write(p []byte) (int, error) { return len(p), nil }
+func (c *noiseConn) Close() error                { c.once.Do(func() { close(c.closed) }); return nil }
+
+type noiseClock struct{ t time.Time }
+
+func (c *noiseClock) Now() time.Time { return c.t }
+
+type noiseCollector struct{ f func(time.Time) }
+
+func (c *noiseCollector) Start(rate time.Duration, f func(now time.Time)) error { c.f = f; return nil }
+func (c *noiseCollector) Close() error                                          { return nil }
